@@ -25,7 +25,7 @@ ValidTag(P) == P.c \in {1, 2, 3}
 (* operand representations a routine is specified for: affine (tag 1, z = 1 *)
 (* or the library identity) and the projective system sys of the routine   *)
 RepOk(e, P, sys) == /\ ValidTag(P) /\ PCanon(e, P)
-                    /\ (P.c = 1 \/ P.c = sys)
+                    /\ P.c \in {1, sys}
                     /\ (P.c = 1 => FAbs(e, P.z) \in {<<>>, <<1>>})
 AnyRep(e, P) == ValidTag(P) /\ PCanon(e, P) /\ (P.c = 1 => FAbs(e, P.z) \in {<<>>, <<1>>})
 (* precondition of every group operation: operands are points of the curve *)
@@ -46,9 +46,14 @@ KNeg(k) == k.s = 1 /\ BNorm(k.d) # <<>>
 (* [k]P by the definition, k a bn projection, P a raw point *)
 KP(e, k, P) == PMul(KNeg(k), BNorm(k.d), PAbs(e, P), Crv(e))
 
-RECURSIVE SumKP(_, _, _)
-SumKP(e, i, acc) == IF i > Len(e.ps) THEN acc
-                    ELSE SumKP(e, i + 1, PAdd(acc, KP(e, e.ks[i], e.ps[i]), Crv(e)))
+(* sum of [k_i]P_i; the partial sums are a sequence built front to back so that TLC evaluates each once *)
+RECURSIVE SumKPSeq(_, _)
+SumKPSeq(e, sums) ==
+    IF Len(sums) > Len(e.ps) THEN sums
+    ELSE LET i == Len(sums)
+             nxt == PAdd(sums[i], KP(e, e.ks[i], e.ps[i]), Crv(e))
+         IN  SumKPSeq(e, Append(sums, nxt))
+SumKP(e, i, acc) == LET s == SumKPSeq(e, <<acc>>) IN s[Len(s)]
 
 DblOps == {"ep_dbl", "ep_dbl_basic", "ep_dbl_projc", "ep_dbl_jacob"}
 AddOps == {"ep_add", "ep_add_basic", "ep_add_projc", "ep_add_jacob"}
@@ -130,8 +135,24 @@ EpAccept(e) ==
 (* wraps for scalars shorter than w bits: a reduced scalar 0 (k a non-zero *)
 (* multiple of n) throws ERR_NO_BUFFER, a reduced scalar of 1..w-1 bits    *)
 (* (k = 1 mod n for w = 2) runs the window loop past the buffer (SIGSEGV). *)
+(*                                                                         *)
+(* C03-cmp-zero-infinity: ep_cmp special-cases the identity only when BOTH *)
+(* operands are the identity; the identity stored as the all-zero triple   *)
+(* with a projective tag - exactly what ep_add_jacob returns for P + (-P)  *)
+(* (ep_set_infty, then r->coord = JACOB) - compares RLC_EQ to EVERY finite *)
+(* point (both sides of the cross multiplication are 0).                   *)
+(*                                                                         *)
+(* Curves of even order (cofactor 2, 4, 8; tiny world with h = 2):         *)
+(* C03-dblbasic-order-two: affine doubling of a point of order two (y = 0) *)
+(* inverts 2y = 0: fp_inv throws, nothing is returned (expected identity); *)
+(* reached through ep_dbl_basic, ep_add_basic(P, P), ep_sub(P, P').        *)
+(* C03-addprojc-order-two-difference: the complete projective formulas     *)
+(* (Renes-Costello-Batina) are complete only for odd order: for finite P,  *)
+(* Q with P - Q of exact order two ep_add_projc returns the all-zero       *)
+(* triple, which reads as the identity.                                    *)
 (***************************************************************************)
 CeilDiv(x, y) == (x + y - 1) \div y
+OrderTwo(X) == ~X.inf /\ X.y = <<>>
 KRed(e, k) == IModPos(I(k.s = 1, k.d), BNorm(e.n.d))
 TrickFirstShort(e) ==      \* the reduced scalar bn_rec_win fails on first ("none" if neither is short)
     LET w == e.wd \div 2 IN
@@ -181,5 +202,28 @@ EpKnownKey(e) ==
          /\ IF TrickFirstShort(e) = <<>> THEN e.crash = 0 /\ e.err # 0 /\ e.code = 1
             ELSE e.crash # 0
             -> "C03-simtrick-short-scalar"
+      [] /\ e.op = "ep_cmp" /\ AnyRep(e, e.P) /\ AnyRep(e, e.Q) /\ Ok(e)
+         /\ PAbs(e, e.P).inf # PAbs(e, e.Q).inf
+         /\ LET Z == IF PAbs(e, e.P).inf THEN e.P ELSE e.Q IN
+              Z.c # 1 /\ BNorm(Z.x) = <<>> /\ BNorm(Z.y) = <<>>
+         /\ e.ret = e.EQ
+            -> "C03-cmp-zero-infinity"
+      [] /\ e.op \in {"ep_dbl_basic", "ep_dbl"} /\ SysOf(e) = 1
+         /\ RepOk(e, e.P, 1) /\ OnC(e, e.P) /\ OrderTwo(PAbs(e, e.P))
+         /\ e.crash = 0 /\ e.err # 0 /\ e.code = 1
+            -> "C03-dblbasic-order-two"
+      [] /\ e.op \in {"ep_add_basic", "ep_add", "ep_sub"} /\ SysOf(e) = 1 /\ e.al \in {0, 1, 2}
+         /\ RepOk(e, e.P, 1) /\ RepOk(e, e.Q, 1) /\ OnC(e, e.P) /\ OnC(e, e.Q)
+         /\ OrderTwo(PAbs(e, e.P)) /\ PEq(PAbs(e, e.P), PAbs(e, e.Q))
+         /\ e.crash = 0 /\ e.err # 0 /\ e.code = 1
+            -> "C03-dblbasic-order-two"
+      [] /\ e.op \in {"ep_add_projc", "ep_add", "ep_sub"} /\ SysOf(e) = 2
+         /\ RepOk(e, e.P, 2) /\ RepOk(e, e.Q, 2) /\ OnC(e, e.P) /\ OnC(e, e.Q)
+         /\ ~PAbs(e, e.P).inf /\ ~PAbs(e, e.Q).inf
+         /\ LET c == Crv(e)
+                Q2 == IF e.op = "ep_sub" THEN PNeg(PAbs(e, e.Q), c) ELSE PAbs(e, e.Q)   \* the point actually added
+            IN  OrderTwo(PSub(PAbs(e, e.P), Q2, c)) /\ ~PAdd(PAbs(e, e.P), Q2, c).inf
+         /\ Ok(e) /\ ValidTag(e.R) /\ PAbs(e, e.R).inf
+            -> "C03-addprojc-order-two-difference"
       [] OTHER -> ""
 =============================================================================
